@@ -251,6 +251,18 @@ fn uexpr_sx(e: &garble_lang::ast::Expr<()>) -> String {
         ExprEnum::FnCall(f, args) => format!("(call {f}{})", list(args)),
         ExprEnum::If(c, t, x) => format!("(if {} {} {})", uexpr_sx(c), uexpr_sx(t), uexpr_sx(x)),
         ExprEnum::Cast(ty, x) => format!("(cast {} {})", utype_sx(ty), uexpr_sx(x)),
+        ExprEnum::ArrayLiteral(es) => format!("(arrlit{})", list(es)),
+        ExprEnum::ArrayRepeatLiteral(x, n) => format!("(arrrep {} {n})", uexpr_sx(x)),
+        ExprEnum::ArrayRepeatLiteralConst(x, c) => format!("(arrrepc {} {c})", uexpr_sx(x)),
+        ExprEnum::Range(a, b, t) => format!("(range {a} {b} {})", uty_sx(t)),
+        ExprEnum::StructLiteral(n, fs) => format!(
+            "(structlit {n}{})",
+            fs.iter().map(|(f, x)| format!(" ({f} {})", uexpr_sx(x))).collect::<String>()
+        ),
+        ExprEnum::EnumLiteral(e, v, args) => match args {
+            garble_lang::ast::VariantExprEnum::Unit => format!("(enumlit {e} {v} (unit))"),
+            garble_lang::ast::VariantExprEnum::Tuple(es) => format!("(enumlit {e} {v} (args{}))", list(es)),
+        },
         ExprEnum::Block(ss) => format!("(block{})", ss.iter().map(|x| format!(" {}", ustmt_sx(x))).collect::<String>()),
         ExprEnum::Match(x, arms) => format!(
             "(match {}{})",
